@@ -69,7 +69,15 @@ def _work(i, conn, timeout, seed):
                 notes.append(f"{nm}: sat without definitions (not a refutation)")
                 continue
             if r == z3.sat:
-                conn.send(("refuted", time.time() - t0, nm, _model_text(s.model())))
+                txt = _model_text(s.model())
+                try:
+                    mi = _model_input(s.model(), getattr(o, "inputs", None)) if nm == "z3" else None
+                except Exception as exc:      # pragma: no cover
+                    mi = None
+                if mi is not None:
+                    import json as _json
+                    txt = "MODEL-INPUT " + _json.dumps(mi) + "\n" + txt
+                conn.send(("refuted", time.time() - t0, nm, txt))
                 return
             notes.append(f"{nm}: unknown ({s.reason_unknown()})")
         conn.send(("unknown", time.time() - t0, "z3", "; ".join(notes)))
@@ -148,6 +156,47 @@ class _Abs:
         self.hyps = [nl_abstract(h, cache) for h in o.hyps]
         self.goal = nl_abstract(o.goal, cache)
         self.axioms = [nl_abstract(a, cache) for a in o.axioms]
+
+
+def _num(v):
+    if z3.is_int_value(v):
+        return v.as_long()
+    if z3.is_rational_value(v):
+        return float(v.numerator_as_long()) / float(v.denominator_as_long())
+    if z3.is_true(v):
+        return True
+    if z3.is_false(v):
+        return False
+    if z3.is_algebraic_value(v):
+        return float(v.approx(12).as_fraction())
+    return None
+
+
+def _model_input(m, inputs, cap=48):
+    """concrete arguments of the function under contract from a solver model (index-type obligations)"""
+    if not inputs:
+        return None
+    out = {}
+    for inp in inputs:
+        if "const" in inp:
+            out[inp["name"]] = {"const": inp["const"], "type": inp["type"]}
+            continue
+        if inp["shape"] is None:
+            out[inp["name"]] = {"value": _num(m.eval(inp["term"], model_completion=True)), "type": inp["type"]}
+            continue
+        dims = []
+        for d in inp["shape"]:
+            dv = d if isinstance(d, int) else _num(m.eval(d, model_completion=True))
+            if dv is None or dv < 0 or dv > cap:
+                return None
+            dims.append(int(dv))
+        import itertools as _it
+        cells = []
+        for idx in _it.product(*[range(d) for d in dims]):
+            sel = z3.Select(inp["term"], *[z3.IntVal(i) for i in idx])
+            cells.append(_num(m.eval(sel, model_completion=True)))
+        out[inp["name"]] = {"shape": dims, "cells": cells, "type": inp["type"]}
+    return out
 
 
 def _model_text(m, limit=6000):
